@@ -230,6 +230,19 @@ func delimsStable(fn *ssa.Function, mk *ssa.CallCommon, mkInstr ssa.Instruction)
 // length of base, the whole-match text subject[m[0]:m[1]], at a place where a dominating test says
 // which alternative of the pattern matched. Returns the reason when it follows.
 func (pr *prover) matchLinear(fn *ssa.Function, in ssa.Instruction, base ssa.Value, a, b term) string {
+	toLF := func(t term) linForm {
+		lf := linForm{coef: map[ssa.Value]int64{}}
+		if t.v != nil {
+			lf = linOf(t.v, 0)
+		}
+		lf.c += t.off
+		return lf
+	}
+	return pr.matchLinearLF(fn, in, base, toLF(a), toLF(b))
+}
+
+// matchLinearLF is matchLinear for two sides given as linear forms.
+func (pr *prover) matchLinearLF(fn *ssa.Function, in ssa.Instruction, base ssa.Value, la, lb linForm) string {
 	if base == nil {
 		return ""
 	}
@@ -278,12 +291,7 @@ func (pr *prover) matchLinear(fn *ssa.Function, in ssa.Instruction, base ssa.Val
 	for _, o := range an.Origins(mk.Args[0], an.StepValue) {
 		listBases[o] = true
 	}
-	addTerm := func(t term, sign int64) bool {
-		c += sign * t.off
-		if t.v == nil {
-			return true
-		}
-		lf := linOf(t.v, 0)
+	addTerm := func(lf linForm, sign int64) bool {
 		c += sign * lf.c
 		for at, cf := range lf.coef {
 			if cf == 0 {
@@ -318,7 +326,7 @@ func (pr *prover) matchLinear(fn *ssa.Function, in ssa.Instruction, base ssa.Val
 		}
 		return true
 	}
-	if !addTerm(b, 1) || !addTerm(a, -1) {
+	if !addTerm(lb, 1) || !addTerm(la, -1) {
 		return ""
 	}
 	if s < 0 {
@@ -403,14 +411,40 @@ func (pr *prover) callerProves(fn *ssa.Function, base ssa.Value, a, b term) stri
 		}
 		ta, ok1 := conv(a)
 		tb, ok2 := conv(b)
-		if !ok1 || !ok2 {
-			return ""
-		}
-		if pr.le(ta, tb, point{blk: site.Block()}, 0, map[[2]ssa.Value]bool{}) {
+		if ok1 && ok2 && pr.le(ta, tb, point{blk: site.Block()}, 0, map[[2]ssa.Value]bool{}) {
 			continue
 		}
-		if base != nil {
-			if cb := toCaller(fn, site, base); cb != nil && pr.matchLinear(caller, site, an.Deref(cb), ta, tb) != "" {
+		// as linear forms: every atom (a length, a parameter) carried over to the caller
+		convLF := func(t term) (linForm, bool) {
+			out := linForm{coef: map[ssa.Value]int64{}, c: t.off}
+			if t.v == nil {
+				return out, true
+			}
+			lf := linOf(t.v, 0)
+			out.c += lf.c
+			for at, cf := range lf.coef {
+				if cf == 0 {
+					continue
+				}
+				ct, ok := conv(term{v: at})
+				if !ok {
+					return out, false
+				}
+				out.c += cf * ct.off
+				if ct.v != nil {
+					sub := linOf(ct.v, 0)
+					out.c += cf * sub.c
+					for a2, c2 := range sub.coef {
+						out.coef[a2] += cf * c2
+					}
+				}
+			}
+			return out, true
+		}
+		la, okA := convLF(a)
+		lb, okB := convLF(b)
+		if okA && okB && base != nil {
+			if cb := toCaller(fn, site, base); cb != nil && pr.matchLinearLF(caller, site, an.Deref(cb), la, lb) != "" {
 				continue
 			}
 		}
